@@ -14,15 +14,17 @@ func init() {
 		Title: "Announced peers come back from get_peers, and only those, per BEP 5/32",
 		Decided: "C11.1 the endpoint stored on announce is (source IP, port) with port = the UDP source port when implied_port is set (it wins), else the explicit port; the same values go to the announce hook; " +
 			"C11.2 the store is written and read under the same args.info_hash; C11.3 values is assigned only from the BEP 32 filter applied to the store's answer with the query's want list and source IP, and the filter appends an entry only under (wants-v4 ∧ 4-byte form) ∨ (wants-v6 ∧ 16-byte form); " +
-			"C11.4 a get_peers reply carries a token whenever a peer store is configured (shared with C10.4); C11.5 the bundled store's index is only touched under its lock, AddPeer stores the given endpoint under the given infohash keyed by its IP, GetPeers returns only entries of its own infohash.",
+			"C11.4 a get_peers reply carries a token whenever a peer store is configured (shared with C10.4); C11.5 the bundled store's index is only touched under its lock, AddPeer stores the given endpoint under the given infohash keyed by its IP, GetPeers returns only entries of its own infohash, and a missing per-infohash map (or the index) is created in the same critical section that found it missing; " +
+			"C11.6 on the accepted-announce path the acknowledgement is preceded by PeerStore.AddPeer unless no store is configured, whatever other hooks are set; filterPeers returns each kept entry in the address form of the family it was kept for; " +
+			"C11.7 the address family of returned nodes follows the explicit want list, else the query's family (shared with C09.6).",
 		NotDecided: "replacement semantics over histories, 'only those' over time, asynchronous visibility of the go AddPeer.",
 		Rules: []*Rule{
 			{ID: "C11.1", Doc: "announced endpoint construction", Floor: 2, Run: c11r1},
 			{ID: "C11.2", Doc: "same key in and out", Floor: 2, Run: c11r2},
 			{ID: "C11.3", Doc: "values only through the BEP 32 filter", Floor: 2, Run: c11r3},
-			{ID: "C11.6 on the accepted-announce path the acknowledgement is preceded by PeerStore.AddPeer unless no store is configured, whatever other hooks are set; filterPeers returns each kept entry in the address form of the family it was kept for; " +
-			"C11.5", Doc: "bundled in-memory store", Floor: 6, Run: c11r5},
+			{ID: "C11.5", Doc: "bundled in-memory store", Floor: 6, Run: c11r5},
 			{ID: "C11.6", Doc: "an accepted announce reaches the peer store whenever one is configured", Floor: 1, Run: c11r6},
+			{ID: "C11.7", Doc: "family selection: explicit want, else the query's address family (shared with C09.6)", Floor: 2, Run: c09r6},
 		},
 	})
 }
@@ -314,6 +316,73 @@ func c11r5(w *World, rr *RuleRun) {
 	})
 	if !okStore {
 		rr.Oblige(shortFuncName(ap), "AddPeer stores the endpoint it was given, keyed by its IP", w.P.Pos(ap.Pos()), false, "no map update keyed by na.IP")
+	}
+	// creating the per-infohash map (or the index itself) is atomic with finding it absent:
+	// otherwise two first announces for one infohash race and one endpoint is lost
+	dominates := func(a, b ssa.Instruction) bool {
+		if a.Block() == b.Block() {
+			return instrIndex(a) < instrIndex(b)
+		}
+		return a.Block().Dominates(b.Block())
+	}
+	for _, fn := range w.P.LibFuncs {
+		if !strings.Contains(shortFuncName(fn), "peer-store.InMemory") {
+			continue
+		}
+		for _, b := range fn.Blocks {
+			for _, ins := range b.Instrs {
+				switch x := ins.(type) {
+				case *ssa.MapUpdate:
+					if fieldOfAddr(x.Map) != index || !types.Identical(x.Map.Type().Underlying(), index.Type().Underlying()) {
+						continue
+					}
+					key := w.TS.Of(x.Key)
+					ok, why := false, "no lookup of the same key precedes the insertion"
+					eachInstr([]*ssa.Function{fn}, func(_ *ssa.Function, i2 ssa.Instruction) {
+						lk, isLk := i2.(*ssa.Lookup)
+						if ok || !isLk || fieldOfAddr(lk.X) != index || !termEq(w.TS.Of(lk.Index), key) || !dominates(lk, ins) {
+							return
+						}
+						if same, y := w.LK.SameCriticalSection(mu, lk, ins); same {
+							ok, why = true, "lookup at "+w.P.InstrPos(lk)
+						} else {
+							why = "the lookup at " + w.P.InstrPos(lk) + " is not in the critical section of the insertion: " + y
+						}
+					})
+					rr.At(w, ins, "a per-infohash map is created in the critical section that found it missing", ok, why)
+				case *ssa.Store:
+					if fa, isFA := x.Addr.(*ssa.FieldAddr); !isFA || fieldOfAddr(fa) != index {
+						continue
+					}
+					if _, isMake := x.Val.(*ssa.MakeMap); !isMake {
+						continue
+					}
+					ok, why := false, "no nil test of the index precedes its creation"
+					for _, rd := range w.FieldReads([]*ssa.Function{fn}, index) {
+						if ok || !dominates(rd, ins) {
+							continue
+						}
+						isNilTest := false
+						if v, isV := rd.(ssa.Value); isV && v.Referrers() != nil {
+							for _, r := range *v.Referrers() {
+								if bo, isB := r.(*ssa.BinOp); isB && (isNilConst(bo.X) || isNilConst(bo.Y)) {
+									isNilTest = true
+								}
+							}
+						}
+						if !isNilTest {
+							continue
+						}
+						if same, y := w.LK.SameCriticalSection(mu, rd, ins); same {
+							ok, why = true, "nil test at "+w.P.InstrPos(rd)
+						} else {
+							why = "the nil test at " + w.P.InstrPos(rd) + " is not in the critical section of the creation: " + y
+						}
+					}
+					rr.At(w, ins, "the index is created in the critical section that found it nil", ok, why)
+				}
+			}
+		}
 	}
 	// GetPeers: reads index[ih] only
 	gp := w.P.Func("(*peer-store.InMemory).GetPeers")
